@@ -7,6 +7,16 @@ HERE = os.path.dirname(os.path.dirname(os.path.abspath(__file__)))
 
 # id -> (level category, technique, level text, level note, design ref)
 CHECKS = {
+    'C06': ('exploration', 'compile-and-link oracle: returned files, unmodified, against a mock Dezyne runtime and mock model header, in eight translation-unit shapes',
+            'Held on the file sets of the run (special model shapes + random models, every third multi-client): each header alone and twice, '
+            'all headers in random orders, harness TU + shell source linked and run, two shells per TU, two prefixes per program.',
+            'Mock runtime/model header fidelity is by construction from the API the emitted code uses; g++ 12 / clang++ 14 with libstdc++.',
+            'DESIGN.md section 3 C06'),
+    'C14': ('exploration', 'reference-model monitor: set-comprehension spec vs find_fqn/find_any/scope_resolution_order; hand-written identifier validator vs NamespaceIds',
+            'Held on the enumerated and sampled cases of the run; declaration sets of size <=2 over a 3-identifier alphabet are enumerated exhaustively '
+            '(depth 2 quick, depth 3 thorough) with every query and calling scope; identifier strings of length <=2/3 over a hostile alphabet exhaustively.',
+            'Result order is not judged; find_any with an empty suffix and aliasing are not judged.',
+            'DESIGN.md section 3 C14'),
     'C15': ('fault_enumeration', 'exception classifier over structurally mutated documents + out-event refusal predicate computed on the mutated document',
             'Held on the mutants of the run (20k quick / 500k thorough, 1-3 faults each, twelve fault kinds) plus hand-made documents and non-object roots.',
             'Only valid JSON is fed; a text the JSON decoder itself refuses is counted, not judged. Known finding D10 (RecursionError at ~500 nested namespaces).',
